@@ -10,10 +10,12 @@ pub const LETTERS: [u8; 3] = [b'a', b'b', b'c'];
 /// op bytes of the eight ligature forms: =: =:| =:|> |=: |=:> |=:| |=:|> |=:|>>
 pub const FORMS: [u8; 8] = [0, 1, 5, 2, 6, 3, 7, 11];
 pub const FORM_NAMES: [&str; 8] = ["LIG", "LIG/", "LIG/>", "/LIG", "/LIG>", "/LIG/", "/LIG/>", "/LIG/>>"];
-/// kern table (fix_words): 0.1 and -0.25 design units; design size 10pt
-pub const KERNS: [i32; 2] = [104858, -262144];
+/// kern table (fix_words): 0.1, -0.25 and twice 0 design units (a zero kern is legal and blocks later
+/// rules for its pair); design size 10pt. Kerns #0 and #3 are given by value, #1 and #2 by index.
+pub const KERNS: [i32; 4] = [104858, -262144, 0, 0];
 pub const DESIGN_SIZE: i32 = 10 << 20;
-pub const N_OPS: u64 = 2 + 8 * 3;
+pub const N_KERN_OPS: u8 = 4;
+pub const N_OPS: u64 = 4 + 8 * 3;
 pub const SIM_BUDGET: usize = 10_000;
 
 /// left: 0 = left boundary, 1 = a, 2 = b; right: 0 = a, 1 = b, 2 = right boundary; op < N_OPS
@@ -34,20 +36,19 @@ pub struct Prog {
 }
 
 pub fn op_bytes(op: u8) -> (u8, u8) {
-    match op {
-        0 => (128, 0),
-        1 => (128, 1),
-        _ => {
-            let k = op - 2;
-            (FORMS[(k / 3) as usize], LETTERS[(k % 3) as usize])
-        }
+    if op < N_KERN_OPS {
+        (128, op)
+    } else {
+        let k = op - N_KERN_OPS;
+        (FORMS[(k / 3) as usize], LETTERS[(k % 3) as usize])
     }
 }
 pub fn describe_op(op: u8) -> String {
-    match op {
-        0 => "KRN#0".into(),
-        1 => "KRN#1".into(),
-        _ => format!("{} {}", FORM_NAMES[((op - 2) / 3) as usize], LETTERS[((op - 2) % 3) as usize] as char),
+    if op < N_KERN_OPS {
+        format!("KRN#{op}{}", if KERNS[op as usize] == 0 { "(zero)" } else { "" })
+    } else {
+        let k = op - N_KERN_OPS;
+        format!("{} {}", FORM_NAMES[(k / 3) as usize], LETTERS[(k % 3) as usize] as char)
     }
 }
 pub fn describe_rules(rules: &[Rule], rbc: Option<u8>) -> String {
